@@ -7,9 +7,9 @@ import (
 	"bytes"
 	"errors"
 	"fmt"
-	"strings"
 	"math"
 	"sort"
+	"strings"
 	"testing"
 	"unicode/utf8"
 
@@ -637,6 +637,7 @@ func genInt(t *rapid.T) int64 {
 }
 
 var invalidUTF8 = []string{"\xff", "a\xc3", "\xc0\xaf", "\xed\xa0\x80", "ab\x80cd", "\xf8\x88\x80\x80\x80", "\xf4\x90\x80\x80", "\xe2\x82"}
+
 // runes: every UTF-8 length class and the code points at its edges, the replacement character
 // U+FFFD (valid text, but what decoders substitute for errors), non-characters, NUL, BOM
 var runes = []rune{'a', 'b', 'z', '0', ' ', 'é', 'ß', '€', '語', '😀', 0x10ffff, 0x7f, 0x80, 0x00, 0x7ff, 0x800, 0xd7ff, 0xe000, 0xfffd, 0xfffd, 0xfffe, 0xffff, 0x10000, 0xfeff, 0x85, 0x2028}
@@ -1045,7 +1046,6 @@ func TestExhaustiveCodePoints(t *testing.T) {
 	vh.Exhaustive("text", "EncodeTextString of each of the 0x110000 code points (surrogate range = invalid UTF-8) alone and after an ASCII prefix: refused iff invalid, else exact bytes")
 }
 
-
 // ------------------------------------------------------------------------------- dense shape sweeps
 //
 // One dimension at a time, EVERY value 0..1100 and a few larger ones (the format has no limit
@@ -1055,7 +1055,7 @@ func TestExhaustiveCodePoints(t *testing.T) {
 // implementation switches at SOME count or length is crossed whatever that number is, and the
 // n-th call on one Encoder object is made for every n. Judged by the tree check above.
 
-func shapeCase(shape string, n int) (TreeCase, bool) {
+func shapeCase(shape string, n, p int) (TreeCase, bool) {
 	u := func(x int) *Node { return &Node{Kind: "uint", U: uint64(x)} }
 	perms := func(n int) ([]int, []int) {
 		a, b := make([]int, n), make([]int, n)
@@ -1099,6 +1099,34 @@ func shapeCase(shape string, n int) (TreeCase, bool) {
 			k = "text"
 		}
 		return TreeCase{Items: []*Node{{Kind: k, S: vh.B(bytes.Repeat([]byte{'a' + byte(n%26)}, n))}, u(7)}}, true
+	case "keys-text-differ-at", "keys-bytes-differ-at":
+		// keys of n octets that are equal EXCEPT at position p, together with the key cut one octet
+		// short and the key one octet longer: all distinct, whatever an implementation compares,
+		// hashes or copies of a key (a fixed-size prefix, a digest, the length) must tell them apart
+		if n < 1 || p < 0 || p >= n {
+			return TreeCase{}, false
+		}
+		kind := "text"
+		if shape == "keys-bytes-differ-at" {
+			kind = "bytes"
+		}
+		base := bytes.Repeat([]byte{'k'}, n)
+		for i := range base {
+			base[i] = 'a' + byte(i%23)
+		}
+		nd := &Node{Kind: "map"}
+		add := func(k []byte) {
+			nd.Entries = append(nd.Entries, Entry{K: &Node{Kind: kind, S: vh.B(append([]byte{}, k...))}, V: u(len(nd.Entries))})
+		}
+		for _, c := range []byte{'0', '1', '~'} {
+			k := append([]byte{}, base...)
+			k[p] = c
+			add(k)
+		}
+		add(base[:n-1])
+		add(append(append([]byte{}, base...), 'z'))
+		nd.Perm1, nd.Perm2 = perms(len(nd.Entries))
+		return TreeCase{Items: []*Node{nd, u(7)}}, true
 	case "nesting-depth":
 		nd := u(1)
 		for i := 0; i < n; i++ {
@@ -1116,10 +1144,11 @@ func shapeCase(shape string, n int) (TreeCase, bool) {
 type ShapeCase struct {
 	Shape string `json:"shape"`
 	N     int    `json:"n"`
+	P     int    `json:"p,omitempty"`
 }
 
 var shapeProp = vh.Define("C11", "shape-sweep", func(c ShapeCase, r *vh.R) {
-	tc, ok := shapeCase(c.Shape, c.N)
+	tc, ok := shapeCase(c.Shape, c.N, c.P)
 	if !ok || c.N < 0 || c.N > 200000 {
 		r.Skip = true
 		return
@@ -1149,5 +1178,28 @@ func TestShapeSweep(t *testing.T) {
 			}
 		}
 	}
-	vh.Exhaustive("shape-sweep", fmt.Sprintf("7 shapes (array items, map entries with integer / text keys in two caller orders, top-level items on one Encoder, byte / text string octets, nesting depth) x every n in 0..1100 and up to 10 larger values: %d cases", cnt))
+	// pairs (triples) of long keys that differ in ONE octet, at every position of keys up to 130
+	// octets and at the first / middle / last positions (and around 64, 128, 256) of longer ones
+	for _, sh := range []string{"keys-text-differ-at", "keys-bytes-differ-at"} {
+		for n := 1; n <= 400; n++ {
+			var ps []int
+			if n <= 130 {
+				for p := 0; p < n; p++ {
+					ps = append(ps, p)
+				}
+			} else {
+				ps = []int{0, 1, 31, 32, 61, 62, 63, 64, 65, 127, 128, 129, n / 2, n - 2, n - 1}
+			}
+			for _, p := range ps {
+				if p >= n {
+					continue
+				}
+				cnt++
+				if !shapeProp.One(t, ShapeCase{Shape: sh, N: n, P: p}) {
+					return
+				}
+			}
+		}
+	}
+	vh.Exhaustive("shape-sweep", fmt.Sprintf("key sets differing in one octet (text / byte-string keys of 1..400 octets x the position of the difference, plus the key cut short and extended) and 7 shapes (array items, map entries with integer / text keys in two caller orders, top-level items on one Encoder, byte / text string octets, nesting depth) x every n in 0..1100 and up to 10 larger values: %d cases", cnt))
 }
